@@ -27,6 +27,7 @@ pub mod cli;
 pub mod equality;
 pub mod schedules;
 pub mod shapes;
+pub mod sizes;
 pub mod goforms;
 pub mod scoping;
 pub mod sepcomp;
@@ -60,6 +61,7 @@ pub fn all() -> Vec<Box<dyn Family>> {
         Box::new(goforms::GoForms),
         Box::new(numbers::Numbers),
         Box::new(vecs::Vecs),
+        Box::new(sizes::Sizes),
         Box::new(closures::Closures),
         Box::new(fnvalues::FnValues),
         Box::new(externs::Externs),
